@@ -10,6 +10,7 @@ From LV Require Import Base.Bytes Base.Sx Model.Obj Model.Writer Model.Parser Mo
   Model.Loader Proofs.RealProofs Proofs.ObjectRtProofs.
 From LV Require Model.A85 Model.AsciiHex Spec.AsciiHexSpec Proofs.AsciiHexProofs.
 From LV Require Import Proofs.SpellingNumProofs Proofs.SpellingObjProofs Proofs.SpellingFileProofs Proofs.SpellingProofsLitRaw.
+From LV Require Model.Utf Proofs.LoadsFrameProofs Proofs.LoadsTableProofs.
 Local Open Scope N_scope.
 
 (* (1) Cross-reference streams.  For ALL field widths (0 = field absent, any positive width, not all three
@@ -337,6 +338,99 @@ Proof. repeat split; vm_compute; reflexivity. Qed.
 (* same value ([same_value], Proofs/SpellingObjProofs.v): reals by their decimal value ([same_dec]), strings without
    their format, dictionaries in file order *)
 
+(* C02_loads for the cross-reference TABLE format, against c01's loader model (Model/Loader.load = Reader::read):
+   for every style with a cross-reference table and no object streams -- any bytes before "%PDF-" (not containing
+   "%PDF-"), any header end-of-line, a binary line or none, the objects in ANY ORDER with any gaps, every object
+   and the trailer in any spelling with any fillers, ANY SECTIONING of the table with any entry / header
+   end-of-lines, any startxref end-of-lines and padding -- the file the reference writer produces loads, and the
+   loaded document has the version, exactly the objects (each read back as [loaded_top]: [denote] of the object,
+   for a stream the data with Length (re)set), and the trailer (with Size) the file defines.
+   PARTIAL with respect to C02_full in these points only:
+   (a) cross-reference STREAMS, object streams and indirect Length are not covered (Loader.load answers LUnmodelled
+       there; c01's Model/LoaderExt.v load_ext is the model to extend this to);
+   (b) [top_ok]: streams carry a direct Length equal to the data length and are not typed ObjStm; objects and
+       styles in [spell_wf] (the two open findings excluded), generations u16, numbers >= 1;
+   (c) the startxref block must keep "startxref" within the 25 bytes before "%%EOF" that Reader::get_xref_start
+       searches (9 + end-of-lines + padding + digits <= 25): a property of lopdf's search window -- a block padded
+       beyond it is NOT found by lopdf (not drawn by the generator; recorded here as a hypothesis, see notes);
+   (d) the file is larger than 25 bytes and offsets / object numbers fit u32; the version is UTF-8 (lopdf's
+       version is a String). *)
+Theorem C02_loads_table_partial :
+  forall (st : fstyle) (a : adoc) (t : tstyle) (file : bytes),
+    s_xref st = XTable t -> s_ostms st = [] -> ref_write st a = Some file ->
+    Forall LoadsTableProofs.top_ok (LoadsTableProofs.tops st a) -> Utf.utf8_decode (a_version a) <> None ->
+    (spell_wf (ODict (LoadsTableProofs.trd a)) (t_trailer t) /\ (nest (ODict (LoadsTableProofs.trd a)) <= MAX_DEPTH)%nat /\
+      dict_get (a_trailer a) RefWriter.K_Size = None /\ dict_get (a_trailer a) K_Prev = None /\ dict_get (a_trailer a) K_Encrypt = None) ->
+    (LoadsTableProofs.xpos st a <= u32_max /\ LoadsTableProofs.size a <= u32_max /\ 25 < LoadsTableProofs.xpos st a) ->
+    (9 + length (LoadsTableProofs.sx_mid (s_sx_eol1 st) (s_sx_sp1 st) (LoadsTableProofs.xpos st a) (s_sx_sp2 st) (s_sx_eol2 st)) <= 25)%nat ->
+    exists d, load file = LOk d XTTable /\
+      d_version d = a_version a /\ d_trailer d = LoadsTableProofs.t0 a t /\
+      (forall tp, In tp (LoadsTableProofs.tops st a) ->
+                  lookup (d_objects d) (fst (fst tp)) = Some (LoadsTableProofs.loaded_top tp)) /\
+      (forall id o, lookup (d_objects d) id = Some o -> exists tp, In tp (LoadsTableProofs.tops st a) /\ fst (fst tp) = id).
+Proof. exact LoadsTableProofs.loads_table_file. Qed.
+
+Definition ex_adoc : adoc :=
+  {| a_version := bs "1.4";
+     a_trailer := [(bs "Root", ORef 7 0)];
+     a_objs := [((7, 0), ODict [(bs "Type", OName (bs "Catalog")); (bs "V", OReal (bs "2.5"))]);
+                ((3, 2), OStream [(bs "Length", OInt 5)] (bs "a(b" ++ [x0d; x0a]))] |}.
+Definition ex_tstyle : tstyle :=
+  {| t_secs := [(0, 1); (3, 1); (7, 1)]; t_eols := [0; 2; 1]; t_kw_eol := ECR; t_sec_eols := [ECRLF; ELF; ECR];
+     t_sec_sp := [true; false; true]; t_f1 := [FComment (bs "%%EOF") ELF]; t_trailer := YDefault; t_f2 := [FWs 2] |}.
+Definition ex_fstyle : fstyle :=
+  {| s_junk := bs "junk %PDF" ++ [x0a]; s_hdr_eol := ECRLF; s_binary := Some ([xe2; xe3], ECR); s_order := [7; 3];
+     s_objs := [(3, {| i_f1 := [FWs 1]; i_f2 := [FComment (bs "endobj") ECR]; i_f3 := []; i_f4 := [FWs 0]; i_gap := [];
+                       i_obj := YDict [FWs 4] [([NHex true false], [], YInt true 1, [])]; i_fs := [FWs 2]; i_crlf := true; i_eeol := Some ECR |})];
+     s_ostms := []; s_xref := XTable ex_tstyle;
+     s_sx_eol1 := ECRLF; s_sx_sp1 := 1; s_sx_sp2 := 2; s_sx_eol2 := ECR; s_final_eol := Some ELF |}.
+
+(* non-vacuity: a two-object file with bytes before the header, CR LF header, a binary line, objects out of order,
+   a comment "%%EOF" before the trailer dictionary, three subsections with all three entry end-of-lines, a stream
+   written "stream" CR LF ... CR "endstream", and a padded startxref block meets every hypothesis *)
+Theorem C02_example_loads_table :
+  ref_write ex_fstyle ex_adoc <> None /\
+  Forall LoadsTableProofs.top_ok (LoadsTableProofs.tops ex_fstyle ex_adoc) /\
+  Utf.utf8_decode (a_version ex_adoc) <> None /\
+  (spell_wf (ODict (LoadsTableProofs.trd ex_adoc)) (t_trailer ex_tstyle) /\
+   (nest (ODict (LoadsTableProofs.trd ex_adoc)) <= MAX_DEPTH)%nat /\
+   dict_get (a_trailer ex_adoc) RefWriter.K_Size = None /\ dict_get (a_trailer ex_adoc) K_Prev = None /\
+   dict_get (a_trailer ex_adoc) K_Encrypt = None) /\
+  (LoadsTableProofs.xpos ex_fstyle ex_adoc <= u32_max /\ LoadsTableProofs.size ex_adoc <= u32_max /\
+   25 < LoadsTableProofs.xpos ex_fstyle ex_adoc) /\
+  (9 + length (LoadsTableProofs.sx_mid (s_sx_eol1 ex_fstyle) (s_sx_sp1 ex_fstyle) (LoadsTableProofs.xpos ex_fstyle ex_adoc)
+                 (s_sx_sp2 ex_fstyle) (s_sx_eol2 ex_fstyle)) <= 25)%nat.
+Proof.
+  assert (Hx : LoadsTableProofs.xpos ex_fstyle ex_adoc = 117) by (vm_compute; reflexivity).
+  assert (Hs : LoadsTableProofs.size ex_adoc = 8) by (vm_compute; reflexivity).
+  assert (Hr : real_wf (bs "2.5")) by (exists false, (bs "2"), (bs "5"); repeat split; try reflexivity; discriminate).
+  split; [vm_compute; discriminate|]. split.
+  - unfold LoadsTableProofs.tops. cbn [a_objs ex_adoc map fst snd].
+    constructor; [|constructor; [|constructor]].
+    + cbn. split; [lia|]. split; [unfold u16_max; lia|]. split; [|lia]. split.
+      * constructor; [intros [H|[]]; discriminate|]. constructor; [intros []|constructor].
+      * split; [exact I|]. split; [exact Hr|exact I].
+    + cbn. split; [lia|]. split; [unfold u16_max; lia|]. split.
+      * split; [constructor; [intros []|constructor]|]. split; [reflexivity|exact I].
+      * split; [lia|]. split; reflexivity.
+  - split; [vm_compute; discriminate|]. split.
+    + repeat split; try reflexivity; try (cbn; unfold u32_max, u16_max; lia); try (vm_compute; lia).
+      cbn. constructor; [intros [H|[]]; discriminate|]. constructor; [intros []|constructor].
+    + rewrite Hx, Hs. split; [unfold u32_max; repeat split; lia|]. vm_compute. lia.
+Qed.
+
+(* the frame: Reader::read reduced to its pieces, for any file junk ++ F *)
+Theorem C02_load_frame :
+  forall (junk F pre xr : bytes) version x0 t0 objs,
+    pdf_offset (junk ++ F) = blen junk -> F = pre ++ xr -> Loader.header F = Some version ->
+    get_xref_start F = Some (blen pre) -> xref_and_trailer_table xr = XOk (x0, t0) ->
+    dict_get t0 K_Prev = None -> dict_has t0 K_Encrypt = false -> xref_max_id x0 < u32_max ->
+    read_entries F (x_entries x0) [] = SOk objs ->
+    load (junk ++ F) =
+    LOk {| d_version := version; d_binary_mark := read_binary_mark F; d_trailer := dict_swap_remove t0 K_Prev;
+           d_objects := objs; d_max_id := xref_max_id x0 |} (x_type x0).
+Proof. exact LoadsFrameProofs.load_frame. Qed.
+
 (* abstract documents in the claimed domain: one object per number (single revision), numbers 1..2^32-2,
    generations below 2^16, direct objects the data model can hold (c14's obj_wf), streams only at top level
    with a Length entry that is the data length, written directly or as a reference to an integer object of the
@@ -469,6 +563,9 @@ Print Assumptions C02_denote_same_value.
 Print Assumptions C02_indirect_object_any_spelling.
 Print Assumptions C02_indirect_stream_any_spelling.
 Print Assumptions C02_trailer_any_spelling.
+Print Assumptions C02_loads_table_partial.
+Print Assumptions C02_load_frame.
+Print Assumptions C02_example_loads_table.
 Print Assumptions C02_example_object.
 Print Assumptions C02_example_literal.
 Print Assumptions C02_example_spellings.
